@@ -138,4 +138,15 @@ TreesOver(Ns, BinOps, d) ==
   ELSE LET sub == TreesOver(Ns, BinOps, d - 1)
        IN  sub \cup {Un("NOT", a) : a \in sub}
                \cup {Bin(o, a, b) : o \in BinOps, a \in sub, b \in sub}
+
+\* comparison / arithmetic / aggregate constraints over the names Ns (UVL level)
+ArithTrees(Ns) ==
+  LET vars  == {Var(n) : n \in Ns}
+      atoms == vars \cup {Lit("INT", "3"), Lit("NUM", "2.5")}
+      exprs == atoms \cup {Bin(a, u, v) : a \in ArithBin, u \in vars, v \in atoms}
+                     \cup {Bin(g, Var("a1"), u) : g \in {"SUM", "AVG"}, u \in vars}
+      cmps  == {Bin(c, x, y) : c \in CompOps, x \in exprs, y \in atoms}
+  IN  cmps \cup {Bin(o, v, c) : o \in {"AND", "IMPLIES"}, v \in vars,
+                              c \in {Bin("GREATER", x, Lit("INT", "3")) : x \in vars}}
+               \cup {Un("NOT", Bin("EQUALS", x, Lit("STR", "'txt'"))) : x \in vars}
 =============================================================================
